@@ -2,6 +2,7 @@ package checks
 
 import (
 	"fmt"
+	"strings"
 	"reflect"
 	"sync"
 
@@ -46,7 +47,26 @@ func indepCalls(v any) []indepCall {
 			if o.Panicked {
 				return
 			}
-			out = append(out, indepCall{o.Type + "." + o.Method + "(" + o.Args + ")", o.Out})
+			key := o.Type + "." + o.Method + "(" + o.Args + ")"
+			out = append(out, indepCall{key, o.Out})
+			// one level down: the argument-free accessors of library-typed results (Certificate().Data(),
+			// Destination().Bytes(), ...): what a caller reaches in two steps is its to overwrite, too
+			for _, res := range o.Out {
+				if !res.IsValid() || !res.CanInterface() || !adapt.IsLibraryType(res.Type()) {
+					continue
+				}
+				if res.Kind() == reflect.Ptr && res.IsNil() {
+					continue
+				}
+				if k := res.Kind(); k == reflect.Slice || k == reflect.Array || k == reflect.Map || k == reflect.String {
+					continue
+				}
+				adapt.CallMethods(res.Interface(), false, mutatorNames, func(o2 adapt.CallOutcome) {
+					if !o2.Panicked {
+						out = append(out, indepCall{key + "." + o2.Method + "()", o2.Out})
+					}
+				})
+			}
 		})
 	})
 	return out
@@ -69,8 +89,21 @@ func snapOuts(out []reflect.Value) [32]byte {
 
 var skipLoggerTypes = map[reflect.Type]bool{}
 
-func independencePass(r *core.Run, prop string) {
-	items := collectLifetimeItems(r, 1)
+// indepFilter restricts the pass to some entry-point families / calls (nil = everything).
+type indepFilter func(family, callKey string) bool
+
+func independencePass(r *core.Run, prop string, filters ...indepFilter) {
+	var keep indepFilter
+	if len(filters) > 0 {
+		keep = filters[0]
+	}
+	all := collectLifetimeItems(r, 1)
+	var items []*ltItem
+	for _, it := range all {
+		if keep == nil || keep(it.p.Family, "") {
+			items = append(items, it)
+		}
+	}
 	byParser := map[string][]*ltItem{}
 	for _, it := range items {
 		byParser[it.p.Name] = append(byParser[it.p.Name], it)
@@ -114,6 +147,9 @@ func independencePass(r *core.Run, prop string) {
 		r.Transitions.Add(3)
 		// H1
 		for _, c := range o1 {
+			if keep != nil && !keep(it.p.Family, c.key) {
+				continue
+			}
 			r.States.Add(1)
 			if snapOuts(c.out) != s1[c.key] {
 				r.Violate(fmt.Sprintf("%s|decode|%s|%s|result-handed-out-earlier-changed-after-later-calls", prop, it.p.Name, c.key),
@@ -122,10 +158,15 @@ func independencePass(r *core.Run, prop string) {
 			}
 		}
 		n1 := int64(len(o1))
-		// scribble
+		// scribble: every result, and the values themselves through their exported fields
 		for _, cs := range [][]indepCall{o0, o1, o2} {
 			for _, c := range cs {
 				core.Guard(func() { snap.ScribbleValues(c.out) })
+			}
+		}
+		for _, l := range []*ltLive{l0, l1, l2} {
+			if l != nil && l.res.Val != nil {
+				core.Guard(func() { snap.Scribble(l.res.Val) })
 			}
 		}
 		l3, ok3 := ltParse(it)
@@ -139,7 +180,7 @@ func independencePass(r *core.Run, prop string) {
 		var n2 int64
 		for _, c := range indepCalls(l3.res.Val) {
 			want, has := s1[c.key]
-			if !has {
+			if !has || (keep != nil && !keep(it.p.Family, c.key)) {
 				continue
 			}
 			if s0[c.key] != want { // not a deterministic function of the input (time, randomness): not judged
@@ -213,6 +254,7 @@ func replayIndependence(r *core.Run, prop string, c core.Case) {
 			core.Guard(func() { snap.ScribbleValues(x.out) })
 		}
 	}
+	core.Guard(func() { snap.Scribble(l0.res.Val); snap.Scribble(l1.res.Val) })
 	l3, ok3 := ltParse(it)
 	if !ok3 || l3.res.Val == nil {
 		r.Violate(fmt.Sprintf("%s|decode|%s|rejected-after-earlier-callers-overwrote-their-results", prop, p.Name), "replay", c)
@@ -223,4 +265,14 @@ func replayIndependence(r *core.Run, prop string, c core.Case) {
 			r.Violate(fmt.Sprintf("%s|decode|%s|%s|result-depends-on-what-earlier-callers-did-with-theirs", prop, p.Name, x.key), "replay", c)
 		}
 	}
+}
+
+// containsAny reports whether s contains one of the substrings.
+func containsAny(s string, subs ...string) bool {
+	for _, x := range subs {
+		if strings.Contains(s, x) {
+			return true
+		}
+	}
+	return false
 }
